@@ -105,6 +105,7 @@ type Run struct {
 	exitSync atomic.Int64
 	hot      []uint64
 	always   []uint64 // sites that yield whatever is left of the yield budget
+	siteUsed []uint16 // preemptions taken per site (PerSiteBudget)
 	hit      []uint64
 	selState uint64
 	yieldsLeft atomic.Int64
@@ -156,6 +157,7 @@ type RunCfg struct {
 	HotSites     []int
 	YieldBudget  int
 	YieldSkip    int // hot-site hits to let pass before the yield budget starts being spent (preemption late in a run)
+	PerSiteBudget int // if > 0: every hot site may preempt that many times, whatever the others used (rarely executed branches get their share); replaces YieldBudget
 	AlwaysSites  []int // hot sites exempt from the yield budget (rare windows late in a run)
 	StallMax     int // a task parked at a hot intra-op site may be stalled up to this many decisions
 	StartDelay   bool
@@ -637,8 +639,13 @@ func (r *Run) hook(kind, site int) bool {
 				r.yieldSkip.Add(-1)
 				break
 			}
-			if always := site >= 0 && site>>6 < len(r.always) && r.always[site>>6]&(1<<(uint(site)&63)) != 0; always || (r.isHot(site) && r.yieldsLeft.Load() > 0) {
-				if !always {
+			perSite := false
+			if r.Cfg.PerSiteBudget > 0 && r.isHot(site) && site < len(r.siteUsed) && int(r.siteUsed[site]) < r.Cfg.PerSiteBudget {
+				r.siteUsed[site]++
+				perSite = true
+			}
+			if always := site >= 0 && site>>6 < len(r.always) && r.always[site>>6]&(1<<(uint(site)&63)) != 0; always || perSite || (r.Cfg.PerSiteBudget == 0 && r.isHot(site) && r.yieldsLeft.Load() > 0) {
+				if !always && !perSite {
 					r.yieldsLeft.Add(-1)
 				}
 				preempt = true
@@ -712,6 +719,9 @@ func NewRun(tape *Tape, cfg RunCfg) *Run {
 	}
 	r.yieldsLeft.Store(int64(cfg.YieldBudget))
 	r.yieldSkip.Store(int64(cfg.YieldSkip))
+	if cfg.PerSiteBudget > 0 {
+		r.siteUsed = make([]uint16, len(interp.VerifSites))
+	}
 	if cfg.Profile {
 		r.hit = make([]uint64, (len(interp.VerifSites)+63)/64)
 	}
